@@ -313,7 +313,23 @@ def pattern_bases():
 def jobs(tier, seed):
     out = []
     rng = random.Random(1800 + seed)
-    for spec in dist_specs():
+    dspecs = dist_specs()
+    if tier == "thorough":
+        # generated connected multigraphs (4-5 junctions, 4-6 pipes, 0-2 junction-junction valves, open or closed)
+        for i in range(8):
+            nj = rng.choice([4, 5])
+            pipes = []
+            for j in range(1, nj):
+                pipes.append((rng.randrange(0, j), j))
+            while len(pipes) < rng.choice([nj, nj + 1]):
+                a, b = rng.sample(range(nj), 2)
+                pipes.append((a, b))
+            valves = []
+            for _ in range(rng.choice([0, 1, 2])):
+                a, b = rng.sample(range(nj), 2)
+                valves.append((a, b, rng.random() < 0.6))
+            dspecs.append({"name": "gen%d_s%d" % (i, seed), "nj": nj, "pipes": pipes, "valves": valves})
+    for spec in dspecs:
         for src in (0, spec["nj"] - 1):
             for multi in (True, False):
                 if not multi and len(set(map(tuple, map(sorted, spec["pipes"])))) != len(spec["pipes"]):
